@@ -3,7 +3,7 @@
    non-vacuity examples. *)
 From Coq Require Import List Bool Arith NArith Permutation.
 Import ListNotations.
-From C20 Require Import Model CaseDefs ProofsFilter ProofsPipe.
+From C20 Require Import Model CaseDefs ProofsFilter ProofsPipe ProofsConc.
 
 (* thm:C20_projection_exact — for EVERY stored object (any number of fields, duplicate keys
    included), every non-empty or empty field list (present, absent, all, none, repeated names)
@@ -111,6 +111,27 @@ Theorem C20_filter_depends_on_name_set :
     filter_fields d f1 allow = filter_fields d f2 allow.
 Proof. exact filter_depends_on_name_set. Qed.
 Print Assumptions C20_filter_depends_on_name_set.
+
+(* requests in flight together: the filter state (decoder, buffer) is private to a request, so for
+   ANY interleaving of the per-document steps (decode / remove / encode) of any number of requests,
+   each request receives, in its order, the projections of ITS documents by ITS filter *)
+Theorem C20_interleaved_requests_private :
+  forall steps r docs fl, fst (fl r) <> [] ->
+    steps_of r steps = request_steps r docs ->
+    outputs_of r (run private fl no_decoders steps)
+    = map (fun d => filter_fields d (fst (fl r)) (snd (fl r))) docs.
+Proof. exact interleaved_requests_private. Qed.
+Print Assumptions C20_interleaved_requests_private.
+
+(* the variant in which two filters hold the same decoder is refuted: an interleaving in which
+   request 0 does not get its projection (while the private machine gives it) *)
+Example C20_shared_decoder_refuted :
+  exists steps fl dA dB,
+    steps_of 0 steps = request_steps 0 [dA] /\ steps_of 1 steps = request_steps 1 [dB]
+    /\ fst (fl 0) <> [] /\ fst (fl 1) <> []
+    /\ outputs_of 0 (run shared fl no_decoders steps) <> [filter_fields dA (fst (fl 0)) (snd (fl 0))]
+    /\ outputs_of 0 (run private fl no_decoders steps) = [filter_fields dA (fst (fl 0)) (snd (fl 0))].
+Proof. exact shared_decoder_refuted. Qed.
 
 (* the block list as it was before /repo c998f0f (Dig + Suicide per listed name): correct for
    pairwise distinct keys ... *)
